@@ -117,8 +117,8 @@ type tagRun struct {
 	Short    bool // a non-full read primitive was used
 	Unknown  bool
 	Pos      string
-	Result   *Term // value term of the successful return (first result)
-	Origin   *Term // the recorded call Result stands for (time.Unix(…)), if any
+	Result   *Term    // value term of the successful return (first result)
+	Origin   *Term    // the recorded call Result stands for (time.Unix(…)), if any
 	State    *pxState // the path's final state (origins of further leaves)
 	Env      Env
 	Ret      *ssa.Return
